@@ -372,7 +372,10 @@ struct RefEval {
     }
 
     Val binary(const Node& nd) {
+        // largest magnitude inside the two operand subtrees: the rounding noise a comparison has to stay clear of
+        const double saved = maxmag; maxmag = 0;
         Val a = eval(nd.a), b = eval(nd.b);
+        const double submag = maxmag; maxmag = std::max(saved, submag);
         const std::string& op = nd.s;
         const bool set = a.set || b.set;
         if (libShapeIsSet(nd.a) != libShapeIsSet(nd.b)) {
@@ -405,7 +408,7 @@ struct RefEval {
                 // comparisons: 1 or 0.  Exactly equal operands and operands more than 1% apart are decided by
                 // the statement; in between the library applies its UDQPARAM tolerance -> not compared.
                 const double diff = std::fabs(x - y), scale = std::max(std::fabs(x), std::fabs(y));
-                if (x != y && (diff <= 0.01 * scale || diff <= 1e-9 * std::max(maxmag, 1e-300))) throw Guard{"comparison-near-tie"};
+                if (x != y && (diff <= 0.01 * scale || diff <= 1e-9 * std::max(submag, 1e-300))) throw Guard{"comparison-near-tie"};
                 if (x == y && (op == "<" || op == ">") && !tieSafe) throw Guard{"strict-comparison-tie-of-sums"};
                 bool t = op == "==" ? x == y : op == "!=" ? x != y : op == "<=" ? x <= y : op == ">=" ? x >= y : op == "<" ? x < y : x > y;
                 put(r, k, t ? 1.0 : 0.0);
@@ -545,7 +548,7 @@ static RealOut realEvaluate(RealWorld& rw, const std::string& target, const Toke
 // ---------------------------------------------------------------------------------------------
 // comparison of one evaluation; returns "" or the symptom
 // ---------------------------------------------------------------------------------------------
-struct Diff { std::string symptom, detail; int element = -1; };
+struct Diff { std::string symptom, detail; int element = -1; double maxErr = 0; };     // maxErr: largest |library - reference| / largest intermediate
 
 static Diff compare(const World& w, char dom, char targetKind, const RefResult& ref, const RealOut& real) {
     Diff df;
@@ -574,6 +577,7 @@ static Diff compare(const World& w, char dom, char targetKind, const RefResult& 
             o << ", got "; if (real.d[j]) o << real.v[j]; else o << "undefined";
             df.detail = o.str(); return df;
         }
+        if (ed) df.maxErr = std::max(df.maxErr, std::fabs(real.v[j] - ev) / std::max(ref.maxmag, 1e-300));
         if (ed && !(std::fabs(real.v[j] - ev) <= tol + 1e-12 * std::fabs(ev))) {
             df.symptom = "value"; df.element = (int)kr;
             o << (names[k].empty() ? "value" : names[k]) << ": expected " << ev << ", got " << real.v[j];
@@ -591,40 +595,22 @@ static std::string targetName(char kind) { return kind == 'F' ? "FUX" : kind == 
 // ---------------------------------------------------------------------------------------------
 struct Classified { std::string key, minimal; Diff diff; };
 
-static Classified classify(const World& w, RealWorld& rw, char dom, char targetKind, const Tokens& t, const RefResult& ref, const Diff& whole) {
-    // candidates: every sub-expression (contiguous token span of a node of the reference tree, in either
-    // reading of comparison / union chains), small first
-    std::set<std::pair<int, int>> spans;
-    {
-        RefResult both = referenceEvaluateNoThrow(w, dom, t, targetKind != 'F');
-        for (const Ast* a : {&both.ast, &both.altAst})
-            for (int i = 0; i < (int)a->n.size(); ++i) if (i != a->root) spans.insert({a->n[i].t1 - a->n[i].t0, a->n[i].t0});
-    }
-    Tokens minTok = t; Diff minDiff = whole; RefResult minRef = ref; char minTarget = targetKind;
-    for (auto& sp : spans) {
-        Tokens sub(t.begin() + sp.second, t.begin() + sp.second + sp.first);
-        try {
-            // scalar sub-expressions keep the target; a set under a field target needs a set target
-            RefResult r0 = referenceEvaluate(w, dom, sub, false, true);
-            char tk = r0.val.set ? dom : targetKind;
-            RefResult r = referenceEvaluate(w, dom, sub, tk != 'F', true);
-            RealOut ro = realEvaluate(rw, targetName(tk), sub);
-            if (ro.threw && ro.msg.find("not yet supported") != std::string::npos) continue;
-            Diff d = compare(w, dom, tk, r, ro);
-            if (!d.symptom.empty() && r.hasAlt) { RefResult r2 = r; r2.val = r.altVal; if (compare(w, dom, tk, r2, ro).symptom.empty()) d = Diff{}; }
-            if (!d.symptom.empty()) { minTok = sub; minDiff = d; minRef = std::move(r); minTarget = tk; break; }
-        }
-        catch (const Guard&) { continue; }
-    }
-    Classified c; c.minimal = targetName(minTarget) + " = " + join(minTok); c.diff = minDiff;
-    const Ast& a = minRef.ast;
-    const std::string sym = minDiff.symptom;
-    RefEval e(w, dom, a, minTarget != 'F');
-    auto operand = [&](int idx) { try { return e.eval(idx); } catch (const Guard&) { return Val{}; } };
-    auto shape = [&](int idx, const Val& v) { return e.libShapeIsSet(idx) ? std::string("set") : (v.d[0] ? "scalar" : "undefined-scalar"); };
-    // name of the mechanism for one binary node, "" if none of the recognised ones
-    auto binaryMechanism = [&](int idx) -> std::string {
+// Names the library mechanism a node of a (minimal) failing expression runs into, "" if none of the ones met
+// so far.  Everything here only chooses the violation key; it never decides whether something is a violation.
+struct Mechanisms {
+    const World& w; char dom; const Ast& a; RefEval e;
+    Mechanisms(const World& w_, char dom_, const Ast& a_, bool literalsAreSets) : w(w_), dom(dom_), a(a_), e(w_, dom_, a_, literalsAreSets) {}
+    Val operand(int idx) { try { return e.eval(idx); } catch (const Guard&) { return Val{}; } }
+    std::string shape(int idx, const Val& v) { return e.libShapeIsSet(idx) ? std::string("set") : (v.d[0] ? "scalar" : "undefined-scalar"); }
+    std::string at(int idx) {
         const Node& nd = a.n[idx];
+        if (nd.kind == FUNC) {
+            if (nd.s == "UNDEF") return "undef-function-untyped-result";
+            Val A = operand(nd.a);
+            if (in(REDUCTIONS, nd.s) && !A.v.empty() && A.ndef() == 0) return "reduction-of-all-undefined";
+            return "";
+        }
+        if (nd.kind != BIN) return "";
         const std::string cls = opClass(nd.s);
         Val L = operand(nd.a), R = operand(nd.b);
         if (L.v.empty() || R.v.empty()) return "";
@@ -643,55 +629,92 @@ static Classified classify(const World& w, RealWorld& rw, char dom, char targetK
         if (mixed && (kl == "undefined-scalar" || kr == "undefined-scalar") && (cls == "addsub" || cls == "muldiv" || cls == "cmp")) return "undefined-scalar-combined-with-set";
         if (cls == "pow" && mixed) return "pow-scalar-with-set";
         if (cls == "union" && mixed) return "union-scalar-with-set";
+        const size_t n = std::max(L.size(), R.size());
+        for (size_t k = 0; k < n; ++k) {
+            const size_t ka = L.set ? k : 0, kb = R.set ? k : 0;
+            if (cls == "pow" && L.d[ka] && !R.d[kb]) return "pow-undefined-operand";
+            if (cls == "cmp" && nd.s != "<" && nd.s != ">" && L.d[ka] && R.d[kb]) {
+                if (L.v[ka] == 0 && R.v[kb] != 0) return "cmp-zero-lhs";
+                if (L.v[ka] < 0 && L.v[ka] != R.v[kb] && (nd.s == "<=" || nd.s == ">=")) return "cmp-le-ge-negative-lhs";
+            }
+        }
         return "";
-    };
-    const Node& top = a.n[a.root];
-    if (top.kind == BIN) {
-        c.key = binaryMechanism(a.root);
+    }
+    std::string anywhere() { for (int i = 0; i < (int)a.n.size(); ++i) { std::string m = at(i); if (!m.empty()) return m; } return ""; }
+};
+
+static Classified classify(const World& w, RealWorld& rw, char dom, char targetKind, const Tokens& t, const RefResult& ref, const Diff& whole) {
+    // candidates: every sub-expression (contiguous token span of a node of the reference tree, in either
+    // reading of comparison / union chains), small first
+    std::set<std::pair<int, int>> spans;
+    {
+        RefResult both = referenceEvaluateNoThrow(w, dom, t, targetKind != 'F');
+        for (const Ast* a : {&both.ast, &both.altAst})
+            for (int i = 0; i < (int)a->n.size(); ++i) if (i != a->root) spans.insert({a->n[i].t1 - a->n[i].t0, a->n[i].t0});
+    }
+    Tokens minTok = t; Diff minDiff = whole; char minTarget = targetKind; int wrapLevels = 0;
+    for (auto& sp : spans) {
+        Tokens sub(t.begin() + sp.second, t.begin() + sp.second + sp.first);
+        try {
+            // A scalar sub-expression is evaluated under the original target.  A set sub-expression under a
+            // well/group target likewise; under a field target (where it stood inside a reduction, and number
+            // literals are scalars) it is evaluated as FUX = SUM( sub ), or SUM( IDV( sub ) ) if it is undefined throughout.
+            RefResult r0 = referenceEvaluate(w, dom, sub, false, true);
+            const int wrap = !(r0.val.set && targetKind == 'F') ? 0 : r0.val.ndef() > 0 ? 1 : 2;
+            const char tk = wrap ? 'F' : r0.val.set ? dom : targetKind;
+            Tokens ev;
+            if (wrap == 1) ev = {"SUM", "("}; else if (wrap == 2) ev = {"SUM", "(", "IDV", "("};
+            ev.insert(ev.end(), sub.begin(), sub.end());
+            for (int i = 0; i < wrap; ++i) ev.push_back(")");
+            RefResult r = referenceEvaluate(w, dom, ev, tk != 'F', true);
+            RealOut ro = realEvaluate(rw, targetName(tk), ev);
+            if (ro.threw && ro.msg.find("not yet supported") != std::string::npos) continue;
+            Diff d = compare(w, dom, tk, r, ro);
+            if (!d.symptom.empty() && r.hasAlt) { RefResult r2 = r; r2.val = r.altVal; if (compare(w, dom, tk, r2, ro).symptom.empty()) d = Diff{}; }
+            if (!d.symptom.empty()) { minTok = ev; minDiff = d; minTarget = tk; wrapLevels = wrap; break; }
+        }
+        catch (const Guard&) { continue; }
+    }
+    Classified c; c.minimal = targetName(minTarget) + " = " + join(minTok); c.diff = minDiff;
+    const std::string sym = minDiff.symptom;
+    RefResult both = referenceEvaluateNoThrow(w, dom, minTok, minTarget != 'F');
+    auto topOf = [&](const Ast& a) { int x = a.root; for (int i = 0; i < wrapLevels; ++i) x = a.n[x].a; return x; };     // look through the SUM( ) added above
+    // 1. the failing operator itself, in the left-to-right reading, then in the other reading of comparison / union chains
+    for (const Ast* a : {&both.ast, &both.altAst}) {
+        if (a->n.empty()) continue;
+        Mechanisms m(w, dom, *a, minTarget != 'F');
+        c.key = m.at(topOf(*a));
         if (!c.key.empty()) return c;
-        const std::string cls = opClass(top.s);
-        Val L = operand(top.a), R = operand(top.b);
-        if (L.v.empty() || R.v.empty()) { c.key = "expr:" + top.s + ":" + sym; return c; }
-        if (cls == "pow" && sym == "defined-but-should-be-undefined") { c.key = "pow-undefined-operand"; return c; }
-        if (cls == "cmp" && top.s != "<" && top.s != ">") {
-            bool zeroLhs = false, negLhs = false;
-            for (size_t k = 0; k < std::max(L.size(), R.size()); ++k) {
-                size_t ka = L.set ? k : 0, kb = R.set ? k : 0;
-                if (!(L.d[ka] && R.d[kb])) continue;
-                if (minDiff.element >= 0 && (int)k != minDiff.element && (L.set || R.set)) continue;
-                if (L.v[ka] == 0 && R.v[kb] != 0) zeroLhs = true;
-                if (L.v[ka] < 0) negLhs = true;
-            }
-            if (zeroLhs && (sym == "throw" || sym == "undefined-but-should-be-defined")) { c.key = "cmp-zero-lhs"; return c; }
-            if (negLhs && sym == "value" && (top.s == "<=" || top.s == ">=")) { c.key = "cmp-le-ge-negative-lhs"; return c; }
+    }
+    // 2. a comparison whose left operand the library itself evaluates to zero
+    {
+        const Ast& a = both.ast; const Node& top = a.n[topOf(a)];
+        if (top.kind == BIN && opClass(top.s) == "cmp" && top.s != "<" && top.s != ">" && (sym == "throw" || sym == "undefined-but-should-be-defined")) {
+            const Node& lhs = a.n[top.a];
+            Tokens sub(minTok.begin() + lhs.t0, minTok.begin() + lhs.t1);
+            RealOut lo = realEvaluate(rw, targetName(dom), sub);
+            if (!lo.threw) for (size_t k = 0; k < lo.v.size(); ++k) if (lo.d[k] && lo.v[k] == 0) { c.key = "cmp-zero-lhs"; return c; }
         }
-        c.key = "expr:" + top.s + ":" + shape(top.a, L) + "," + shape(top.b, R) + ":" + sym;
-        return c;
     }
-    if (top.kind == FUNC) {
-        Val A = operand(top.a);
-        if (in(REDUCTIONS, top.s) && !A.v.empty() && A.ndef() == 0) { c.key = "reduction-of-all-undefined"; return c; }
-        if (in(REDUCTIONS, top.s) && minTarget == 'F') {
-            // The argument passed on its own under a set target, where number literals are sets.  Under this
-            // field target they are scalars: look for an operator that meets a set and such a scalar.
-            std::vector<int> stack{top.a};
-            while (!stack.empty()) {
-                int x = stack.back(); stack.pop_back();
-                const Node& nd = a.n[x];
-                if (nd.kind == BIN) { std::string m = binaryMechanism(x); if (!m.empty() && m != "pow-followed-by-mul-div") { c.key = m; return c; } }
-                if (nd.kind == FUNC && in(REDUCTIONS, nd.s)) continue;
-                if (nd.a >= 0) stack.push_back(nd.a);
-                if (nd.b >= 0) stack.push_back(nd.b);
-            }
-        }
-        c.key = "func:" + top.s + ":" + sym;
-        return c;
+    // 3. the smallest failing expression contains a construct with a known mechanism in an operand that
+    //    happened to pass on its own (typically because the library groups the operators differently)
+    for (const Ast* a : {&both.ast, &both.altAst}) {
+        if (a->n.empty()) continue;
+        Mechanisms m(w, dom, *a, minTarget != 'F');
+        std::string k = m.anywhere();
+        if (!k.empty()) { c.key = k + ":in-operand"; return c; }
     }
-    if (top.kind == QTY) {
-        std::string form = std::string(1, top.s[0]) + (isUdqName(top.s) ? "-udq" : "-summary") + (!top.hasSel ? "" : top.sel.find('*') != std::string::npos ? "-wildcard" : "-named");
-        c.key = "quantity:" + form + ":" + sym; return c;
+    // 4. nothing recognised: operator / function and operand shapes
+    const Ast& a = both.ast;
+    Mechanisms m(w, dom, a, minTarget != 'F');
+    const Node& top = a.n[topOf(a)];
+    if (top.kind == BIN) {
+        Val L = m.operand(top.a), R = m.operand(top.b);
+        c.key = "expr:" + top.s + ":" + (L.v.empty() ? "?" : m.shape(top.a, L)) + "," + (R.v.empty() ? "?" : m.shape(top.b, R)) + ":" + sym;
     }
-    c.key = std::string(top.kind == NUM ? "number" : "sign") + ":" + sym;
+    else if (top.kind == FUNC) c.key = "func:" + top.s + ":" + sym;
+    else if (top.kind == QTY) c.key = "quantity:" + std::string(1, top.s[0]) + (isUdqName(top.s) ? "-udq" : "-summary") + (!top.hasSel ? "" : top.sel.find('*') != std::string::npos ? "-wildcard" : "-named") + ":" + sym;
+    else c.key = std::string(top.kind == NUM ? "number" : "sign") + ":" + sym;
     return c;
 }
 
@@ -752,6 +775,7 @@ static std::string numberText(Rng& rng) {
 
 struct ExprGen {
     Rng& rng; const World& w; char dom; int maxDepth; int budget; Tokens t;
+    bool groupWildcards = true;     // the library refuses them ("not yet supported"); kept out of the operator-pair cases
     ExprGen(Rng& r, const World& w_, char d, int md, int bud) : rng(r), w(w_), dom(d), maxDepth(md), budget(bud) {}
     void emit(const std::string& s) { t.push_back(s); --budget; }
 
@@ -830,7 +854,7 @@ struct ExprGen {
             if (rng.chance(0.3)) { static const char* p[] = {"'P*'", "'I*'", "'P1*'", "'*'"}; t.push_back(p[rng.below(4)]); }
         } else {
             emit(rng.chance(0.65) ? rng.pick(G_SUMMARY) : rng.pick(G_UDQ));
-            if (rng.chance(0.02)) t.push_back("'G*'");
+            if (groupWildcards && rng.chance(0.02)) t.push_back("'G*'");
         }
     }
 };
@@ -838,6 +862,7 @@ struct ExprGen {
 // `a op1 b op2 c` for one ordered pair of operators, optionally embedded
 static Tokens directedExpression(Rng& rng, const World& w, char dom, bool S, const std::string& op1, const std::string& op2, int simplicity) {
     ExprGen g(rng, w, dom, simplicity >= 2 ? 0 : (int)rng.range(0, 2), simplicity >= 1 ? 6 : 18);
+    g.groupWildcards = false;
     auto ty = g.operandTypes(S, 3);
     for (int i = 0; i < 3; ++i) {
         if (simplicity >= 3 && !ty[i]) g.emit(numberText(rng)); else g.genFactor(ty[i], 1);
@@ -851,7 +876,7 @@ static Tokens directedExpression(Rng& rng, const World& w, char dom, bool S, con
     Tokens out;
     if (form == 7) { out = {"("}; out.insert(out.end(), core.begin(), core.end()); out.push_back(")"); out.push_back(rng.pick(ALLOPS)); out.push_back(numberText(rng)); if (out[out.size() - 2] == "^") out.back() = "2"; }
     else if (form == 8) { out = {numberText(rng), rng.pick(ALLOPS), "("}; out.insert(out.end(), core.begin(), core.end()); out.push_back(")"); }
-    else { out = {S ? "ABS" : "ABS", "("}; out.insert(out.end(), core.begin(), core.end()); out.push_back(")"); }
+    else { out = {"ABS", "("}; out.insert(out.end(), core.begin(), core.end()); out.push_back(")"); }
     return out;
 }
 
@@ -859,6 +884,7 @@ static Tokens directedExpression(Rng& rng, const World& w, char dom, bool S, con
 // Part "expr": one case
 // =============================================================================================
 static const int PAIR_VARIANTS = 8;
+static bool AVOID_KNOWN = false;
 static std::vector<std::pair<std::string, std::string>> allPairs() {
     std::vector<std::pair<std::string, std::string>> p;
     for (auto& a : ALLOPS) for (auto& b : ALLOPS) if (!(a == "^" && b == "^")) p.emplace_back(a, b);   // a^b^c: guard
@@ -884,7 +910,23 @@ static void expressionCase(vh::Reporter& rep, long idx, long eidx, Rng& rng) {
             g.genSet(S, 0);
             t = g.t;
         }
-        try { ref = referenceEvaluate(w, dom, t, targetKind != 'F'); accepted = true; }
+        try {
+            ref = referenceEvaluate(w, dom, t, targetKind != 'F', true);
+            if (ref.hasAlt) {
+                bool same = ref.altVal.set == ref.val.set && ref.altVal.d == ref.val.d;
+                for (size_t k = 0; same && k < ref.val.size(); ++k)
+                    if (ref.val.d[k] && std::fabs(ref.altVal.v[k] - ref.val.v[k]) > 1e-12 * std::max(1.0, std::fabs(ref.val.v[k]))) same = false;
+                if (!same) throw Guard{"grouping-of-equal-rank-comparison-or-union-not-fixed"};
+            }
+            if (AVOID_KNOWN) {
+                // option avoid_known=1: stay away from constructs whose library mechanism already has a finding,
+                // so that the rest of the expression space is explored without their noise
+                std::string k;
+                for (const Ast* a : {&ref.ast, &ref.altAst}) if (!a->n.empty() && k.empty()) k = Mechanisms(w, dom, *a, targetKind != 'F').anywhere();
+                if (!k.empty()) { rep.cover("avoided_known_mechanism", k); continue; }
+            }
+            accepted = true;
+        }
         catch (const Guard& gd) { rep.cover("guarded_not_decided_by_statement", gd.why); }
     }
     if (!accepted) { rep.count(directed ? "directed_pair_cases_without_decidable_expression" : "cases_without_decidable_expression"); rep.case_done(0, false); return; }
@@ -922,7 +964,7 @@ static void expressionCase(vh::Reporter& rep, long idx, long eidx, Rng& rng) {
     if (eidx == 0 || eidx == 2000 || eidx == 2001) rep.sample(caseText + "reference: " + [&] { std::ostringstream o; o.precision(17); for (size_t k = 0; k < ref.val.size(); ++k) { o << " "; if (ref.val.d[k]) o << ref.val.v[k]; else o << "undef"; } return o.str(); }() + "\nlibrary:   " + real.text());
 
     Diff df = compare(w, dom, targetKind, ref, real);
-    if (df.symptom.empty()) return;
+    if (df.symptom.empty()) { rep.maxof("max_abs_difference_relative_to_largest_intermediate", df.maxErr); return; }
     if (real.atConstruction) {
         rep.violation("define-refused", "a DEFINE from the documented grammar is refused: " + real.msg, caseText + "library: " + real.text());
         return;
@@ -1105,7 +1147,7 @@ static void historyCase(vh::Reporter& rep, long idx, Rng& rng) {
     std::set<std::string> kinds;
     try {
         auto deck = parser.parseString(deckText);
-        Opm::EclipseGrid grid(10, 10, 10);
+        Opm::EclipseGrid grid(4, 1, 1);      // wells sit in cells (1..4, 1); nothing else depends on the grid
         Opm::TableManager table(deck);
         Opm::FieldPropsManager fp(deck, Opm::Phases{true, true, true}, grid, table);
         Opm::Runspec runspec(deck);
@@ -1125,6 +1167,7 @@ static void historyCase(vh::Reporter& rep, long idx, Rng& rng) {
             trace << "\n";
             for (auto& r : h.steps[s].records) kinds.insert(r.action == "UPDATE" ? "UPDATE " + r.update : r.action + (r.sel.empty() ? "" : " selected wells"));
             // compare every quantity that has been mentioned so far
+            std::map<std::string, std::pair<std::string, std::string>> wrong;     // quantity -> (symptom, description)
             for (auto& kv : model.q) {
                 const std::string& name = kv.first;
                 if (kv.second.firstMention < 0) continue;
@@ -1149,17 +1192,27 @@ static void historyCase(vh::Reporter& rep, long idx, Rng& rng) {
                         if (has) { sv = name[0] == 'F' ? st.get(name) : st.get_well_var(e, name); badSummary = std::fabs(sv - (ed ? ev : undef)) > 1e-9 * std::max(1.0, std::fabs(ev)); }
                         else badSummary = ed;
                     }
-                    if (bad || badSummary) {
+                    if ((bad || badSummary) && !wrong.count(name)) {
                         std::ostringstream o; o.precision(17);
                         o << "report step " << s << " " << name << (e.empty() ? "" : ":" + e) << ": reference history model "; if (ed) o << ev; else o << "undefined";
                         if (bad) { o << ", UDQState "; if (gd) o << gv; else o << "undefined"; } else o << ", SummaryState " << sv;
                         o << " (last record on it: " << kv.second.lastRecord << ", DEFINE status " << kv.second.status << ")";
-                        std::string sym = bad ? (ed != gd ? (ed ? "undefined" : "defined") : "value") : "summary-state";
-                        rep.violation("history:" + kv.second.lastRecord + ":" + sym, o.str(), trace.str() + o.str() + "\ncase index " + std::to_string(idx));
-                        rep.case_done(hh, true);
-                        return;
+                        wrong[name] = {bad ? (ed != gd ? (ed ? "undefined" : "defined") : "value") : "summary-state", o.str()};
                     }
                 }
+            }
+            if (!wrong.empty()) {
+                // name the quantity that is wrong by itself, not one that merely reads a wrong quantity
+                std::string pick = wrong.begin()->first;
+                for (auto& kv : wrong) {
+                    const HQuantity& x = model.q[kv.first];
+                    bool readsWrong = false;
+                    if (x.action == "DEFINE") for (auto& tk : x.expr) if (tk != kv.first && wrong.count(tk)) readsWrong = true;
+                    if (!readsWrong) { pick = kv.first; break; }
+                }
+                rep.violation("history:" + model.q[pick].lastRecord + ":" + wrong[pick].first, wrong[pick].second, trace.str() + wrong[pick].second + "\ncase index " + std::to_string(idx));
+                rep.case_done(hh, true);
+                return;
             }
         }
     }
@@ -1181,6 +1234,7 @@ int main(int argc, char** argv) {
     vh::Args args = vh::parse_args(argc, argv);
     vh::Reporter rep(args, "C17");
     const long histEvery = args.geti("hist_every", 41);       // coprime with the shard count
+    AVOID_KNOWN = args.geti("avoid_known", 0) != 0;
     rep.run_cases([&](long idx, Rng& rng) {
         if (histEvery > 0 && idx % histEvery == histEvery - 1) historyCase(rep, idx, rng);
         else expressionCase(rep, idx, histEvery > 0 ? idx - idx / histEvery : idx, rng);
